@@ -10,6 +10,7 @@ import (
 	"github.com/bilibili/gengine/context"
 	"github.com/bilibili/gengine/engine"
 	"verif/sim/simrt"
+	sync "verif/sim/simsync"
 )
 
 // ---- rule-set algebra reference model (C08, C10, C16) --------------------------
@@ -415,5 +416,85 @@ func RunW3Builder(plan, sched *simrt.Source, trace bool) *RunOut {
 	}
 	o.Violations = all
 	o.NonTrivial = nOps >= 2
+	return o
+}
+
+// RunBuilderConc lets several tasks perform management operations and existence queries on one
+// shared RuleBuilder at the same time (C19: builder mutations are serialised by its lock).  The only
+// oracles are the race detector, panics and deadlocks.
+func RunBuilderConc(plan, sched *simrt.Source, trace bool) *RunOut {
+	g := &G{S: plan}
+	o := &RunOut{}
+	cfg := g.GenConfig(trace)
+	nNames := g.Range(2, 5)
+	nTasks := g.Range(2, 3)
+	ver := 0
+	cur := SetModel{}
+	ops := make([][]*MgmtOp, nTasks)
+	for t := range ops {
+		for k := g.Range(1, 4); k > 0; k-- {
+			op := g.GenMgmtOp(cur, nNames, 2, &ver, []int{OpFull, OpIncr, OpIncr, OpRemove, OpQuery}, 10)
+			ops[t] = append(ops[t], op)
+		}
+	}
+	o.Describe = func() []string {
+		var out []string
+		for t, l := range ops {
+			for k, op := range l {
+				out = append(out, fmt.Sprintf("task %d op %d: %s", t, k, op))
+			}
+		}
+		return out
+	}
+	rb := builder.NewRuleBuilder(context.NewDataContext())
+	probe := []string{"1", "2", "3"}
+	var panics []string
+	var pmu sync.Mutex
+	run := simrt.NewRun(cfg, sched)
+	run.Execute(func() {
+		_ = rb.BuildRuleFromString(SalRule(1, 0, 0))
+		var wg sync.WaitGroup
+		for t := range ops {
+			t := t
+			wg.Add(1)
+			simrt.Go(func() {
+				defer wg.Done()
+				defer func() {
+					if e := recover(); e != nil {
+						pmu.Lock()
+						panics = append(panics, fmt.Sprint(e))
+						pmu.Unlock()
+					}
+				}()
+				for _, op := range ops[t] {
+					switch op.Kind {
+					case OpFull:
+						_ = rb.BuildRuleFromString(op.Text)
+					case OpIncr:
+						_ = rb.BuildRuleWithIncremental(op.Text)
+					case OpRemove:
+						_ = rb.RemoveRules(op.Names)
+					default:
+						_ = rb.IsExist(probe)
+					}
+				}
+			})
+		}
+		wg.Wait()
+	})
+	fillStats(o, run)
+	o.PlanRec, o.SchedRec = plan.Rec, sched.Rec
+	if RaceMode {
+		CollectRaces(o)
+	}
+	pmu.Lock()
+	for _, p := range panics {
+		o.Violations = append(o.Violations, Violation{Clause: "mgmt-panic", Method: "builder", Msg: "a builder operation panicked while another task used the builder: " + firstLine(p)})
+	}
+	pmu.Unlock()
+	for _, v := range runLevel(run, "concurrent builder operations") {
+		o.Violations = append(o.Violations, v)
+	}
+	o.NonTrivial = run.St.Decisions > 0
 	return o
 }
